@@ -81,6 +81,8 @@ OCCUPANTS = {
     "value": "    {n} = 'user-value:{n}'\n",
     "falsy_value": "    {n} = None\n",
     "falsy_value2": "    {n} = ()\n",
+    # a user-written __new__ (lazy decoration borrows the slot until the first instantiation and has to hand it back as it was)
+    "new_method": "    def {n}(cls, *args, **kwargs):\n        return object.__new__(cls)\n",
 }
 
 
@@ -235,7 +237,7 @@ def occupants_worker(task):
     attrs = rec_attrs(rec)
     base_names, item_of = refnames(attrs, {}, set())
     names = sorted(base_names - DUNDERS_ALWAYS) + ["__init__", "__repr__", "__eq__"]
-    variants = [(None, None)] + [(n, occ) for n in names for occ in OCCUPANTS]
+    variants = [(None, None)] + [(n, occ) for n in names for occ in OCCUPANTS if occ != "new_method"] + [("__new__", "new_method")]
     for bootstrap in (False, True):
         for n, occ in variants:
             if task["tier"] == "quick" and occ in ("staticmethod", "falsy_value2") and not n.startswith("__"):
